@@ -23,8 +23,8 @@ for pid in ALL:
         "replay_cmd_template": "./check %s --replay {path}" % pid,
         "engine": "coq-proof+correspondence",
         "level_claimed": {"category": "proof", "text": cl["text"], "design_ref": cl.get("design_ref", "DESIGN.md section 6 / " + pid)},
-        "level_note": cl["note"],
-        "technique": cl["technique"],
+        "level_note": cl.get("note") or cl.get("level_note") or "Trusted: Coq kernel, translator, extraction, harness; see evidence for the theorems proved and DESIGN.md section 5",
+        "technique": cl.get("technique", "machine-checked proof in Coq over an executable model + model/implementation correspondence by extraction"),
     })
 hooks_commits = subprocess.run(["git", "-C", "/repo", "log", "--format=%H %s"], stdout=subprocess.PIPE).stdout.decode().split("\n")
 hook_ids = [l.split()[0] for l in hooks_commits if " verif hooks" in l]
